@@ -15,6 +15,7 @@
    No proofs in this file. *)
 From Coq Require Import ZArith QArith Qabs List Bool.
 From FV Require Import Common.ListX Common.CMonoid Common.NanQ Common.QVec Common.WMean gen.Gen_tree_util.
+From FV Require gen.Gen_client_datasets.
 Import ListNotations.
 Local Open Scope Q_scope.
 
@@ -202,7 +203,8 @@ Record C01_case := mkC01 {
   k_pop : list (Z * list example);           (* client id -> its examples *)
   k_streams : list (Z * list (list nat));    (* client id -> recorded batch index stream *)
   k_rounds : list (list (Z * list Q));       (* per round: (client id, nu stream of its key) in call order *)
-  k_tol : Q
+  k_tol : Q;
+  k_hp : Z * option Z * option Z * bool      (* ShuffleRepeatBatchHParams: batch_size, num_epochs, num_steps, drop_remainder *)
 }.
 Record C01_round := mkR01 {
   r_params : list Q;            (* server params returned by apply *)
@@ -252,5 +254,22 @@ Fixpoint rounds_agree (c : C01_case) (p : list Q) (t : list Q) (rounds : list (l
   | _, _ => false
   end.
 
+(* the recorded batch streams have the number of batches that ShuffleRepeatBatchView.__init__ computes (translated:
+   gen/Gen_client_datasets.shuffle_num_steps) -- none for an empty dataset (__iter__ returns at once) -- and every
+   batch has batch_size rows with indices into the client's dataset *)
+Definition stream_ok (c : C01_case) (id_stream : Z * list (list nat)) : bool :=
+  let '(bs, epochs, steps, drop) := k_hp c in
+  let n := length (lookup (k_pop c) (fst id_stream) []) in
+  let st := snd id_stream in
+  (match n with
+   | O => Nat.eqb (length st) 0
+   | _ => match Gen_client_datasets.shuffle_num_steps (Z.of_nat n) bs epochs steps drop with
+          | Some (Some k) => Z.eqb (Z.of_nat (length st)) k
+          | _ => false
+          end
+   end) &&
+  forallb (fun b => Z.eqb (Z.of_nat (length b)) bs && forallb (fun i => Nat.ltb i n) b) st.
+
 Definition C01_agree (c : C01_case) (o : C01_obs) : bool :=
+  forallb (stream_ok c) (k_streams c) &&
   rounds_agree c (k_init c) (vzero (length (k_init c))) (k_rounds c) o.
